@@ -419,7 +419,17 @@ func (w *World) doRawEntry() {
 				break
 			}
 		}
-		e, err := entry.CreateEntryWithIO(w.ctx, w.St, n.W.ID, tmplIn, nil, w.IO)
+		signer := n.W.ID
+		if reps := keyRepresentations(n.W.ID.PublicKey); len(reps) > 0 && picks[16]%5 == 0 && tmplIn == iface.IPFSLogEntry(tmpl) && tmpl.Clock != nil {
+			// a writer whose identity carries the same public key in its compressed or hybrid form (another
+			// implementation's habit): a legal key - its entries are signed, stored, read, verified and merged like any
+			idc := *n.W.ID
+			idc.PublicKey = reps[picks[17]%len(reps)]
+			signer = &idc
+			tmpl.Clock = entry.NewLamportClock(idc.PublicKey, clockT)
+			r.Probe("writer-key-in-another-representation")
+		}
+		e, err := entry.CreateEntryWithIO(w.ctx, w.St, signer, tmplIn, nil, w.IO)
 		if err != nil {
 			r.Violate(w.P.Prop+":create-entry", "CreateEntryWithIO failed for next=%d refs=%d: %v", len(next), len(refs), err)
 		}
@@ -471,6 +481,18 @@ func (w *World) doRawEntry() {
 	if ver > 1 {
 		he.Refs = append([]cid.Cid{}, refs...)
 	}
+	// key material in another legal representation of a real key (compressed, hybrid): bytes are bytes - what
+	// was written is what is read
+	if reps := keyRepresentations(n.W.ID.PublicKey); len(reps) > 0 {
+		switch picks[11] % 4 {
+		case 1:
+			he.Key = reps[picks[12]%len(reps)]
+			r.Probe("hand-built-entry-key-representation")
+		case 2:
+			he.Clock = entry.NewLamportClock(reps[picks[12]%len(reps)], clockT)
+			r.Probe("hand-built-entry-key-representation")
+		}
+	}
 	// an entry written by hand (or by another implementation) may leave an empty list absent: nil
 	// encodes as null, which must read back and re-encode as such
 	if len(he.Next) == 0 && picks[6]%2 == 0 {
@@ -491,6 +513,10 @@ func (w *World) doRawEntry() {
 		// the same identity id with other key material (rotated signing key, second device)
 		o := n.W.ID.Filtered()
 		o.PublicKey = rb(picks[3], 65)
+		if reps := keyRepresentations(n.W.ID.PublicKey); len(reps) > 0 && picks[13]%2 == 0 {
+			o.PublicKey = reps[picks[14]%len(reps)]
+			r.Probe("hand-built-entry-key-representation")
+		}
 		o.Signatures = &identityprovider.IdentitySignature{ID: rb(picks[4], 72), PublicKey: rb(picks[5], 72)}
 		he.Identity = o
 	}
@@ -517,4 +543,16 @@ func (w *World) doRawEntry() {
 			r.Violate("C08:reencode", "re-encoding the decoded hand-built entry gives %v (err %v), not %v", c2, err, c)
 		}
 	}
+}
+
+// keyRepresentations: the other legal encodings of an uncompressed secp256k1 public key (04 X Y): compressed
+// (02/03 X) and hybrid (06/07 X Y).
+func keyRepresentations(pub []byte) [][]byte {
+	if len(pub) != 65 || pub[0] != 4 {
+		return nil
+	}
+	odd := pub[64] & 1
+	comp := append([]byte{2 + odd}, pub[1:33]...)
+	hyb := append([]byte{6 + odd}, pub[1:]...)
+	return [][]byte{comp, hyb}
 }
